@@ -78,6 +78,11 @@ def fingerprint_url(url, unsplit=True, strip_suffix=False, platform_aware=False)
     )
     _, netloc, path, query, fragment = splitted
 
+    # NOTE: unescaping can reveal new uppercase characters (%C3%89 is "É")
+    path = path.lower()
+    query = query.lower()
+    fragment = fragment.lower()
+
     user, password, hostname, port = (
         splitted.username,
         splitted.password,
